@@ -56,6 +56,13 @@ class End(Node):
     pass
 
 
+class Char(Node):
+    """exactly one character of a class"""
+
+    def __init__(self, cls):
+        self.cls = cls
+
+
 def char_class(item):
     op, av = item
     if op == sc.ANY:
@@ -73,6 +80,8 @@ def char_class(item):
                 members.append(chr(a))
             elif o == sc.RANGE:
                 members.append((chr(a[0]), chr(a[1])))
+            elif o == sc.CATEGORY and a == sc.CATEGORY_DIGIT:
+                members.append(("0", "9"))   # ASCII digits (str patterns also accept other Unicode decimal digits: stated restriction)
             else:
                 raise RegexUnsupported("character class member %s" % o)
         return (neg, members)
@@ -108,6 +117,10 @@ def convert(items):
                 raise RegexUnsupported("repeat {%s,%s}" % (lo, hi))
         elif op == sc.AT and av in (sc.AT_END,):
             out.append(End())
+        elif op == sc.AT and av == sc.AT_BEGINNING and not out:
+            pass   # re.match is anchored at the beginning anyway
+        elif op in (sc.ANY, sc.NOT_LITERAL, sc.IN):
+            out.append(Char(char_class((op, av))))
         else:
             raise RegexUnsupported("regex construct %s" % op)
     return out
@@ -279,6 +292,10 @@ class Encoding:
                     parts.append(inner)
                 elif isinstance(n, End):
                     anchored[0] = True
+                elif isinstance(n, Char):
+                    ch = self.fresh("%s_ch" % pieces_tag, z3.StringSort()) if given is None else next(given)
+                    cons.append(z3.And(z3.Length(ch) == 1, in_class(n.cls, ch)))
+                    parts.append(ch)
             if not parts:
                 return z3.StringVal("")
             return parts[0] if len(parts) == 1 else z3.Concat(*parts)
@@ -330,6 +347,8 @@ def language(nodes):
             parts.append(language(n.children))
         elif isinstance(n, End):
             pass
+        elif isinstance(n, Char):
+            parts.append(class_re(n.cls))
     if not parts:
         return z3.Re(z3.StringVal(""))
     return parts[0] if len(parts) == 1 else z3.Concat(*parts)
